@@ -40,9 +40,23 @@ static int compare_template(template_t& t, const MTemplate& m)
         bad += !eq(en + "source", end_name(e.src, e.srcb), me.src_bp ? "B:_" + m.bps[me.src] : "L:" + loc_name(m.locs[me.src]));
         bad += !eq(en + "target", end_name(e.dst, e.dstb), me.dst_bp ? "B:_" + m.bps[me.dst] : "L:" + loc_name(m.locs[me.dst]));
         bad += !eq(en + "control", e.control ? "1" : "0", edge_control(me) ? "1" : "0");
-        std::string sel;
+        std::string sel, wantsel;
         for (size_t k = 0; k < e.select.get_size(); k++) sel += (k ? ", " : "") + e.select[k].get_name() + " : " + tstr(e.select[k].get_type());
-        bad += !eq(en + "select", sel, me.select.empty() ? "" : me.select.substr(0, me.select.find(':')) + ": (const (range (int) \"0\" \"2\"))");   // select binders are constants
+        {   // expected: every binder of the label, in order, as a constant of its range
+            size_t p = 0; bool first = true;
+            while (p < me.select.size()) {
+                size_t c = me.select.find(':', p), q = me.select.find(", ", c);
+                std::string nm = me.select.substr(p, c - p); while (!nm.empty() && nm.back() == ' ') nm.pop_back();
+                wantsel += std::string(first ? "" : ", ") + nm + " : (const (range (int) \"0\" \"2\"))"; first = false;
+                if (q == std::string::npos) break; p = q + 2;
+            }
+        }
+        bad += !eq(en + "select", sel, wantsel);
+        // uses of a binder's name in the edge's labels bind to the binder, not to a shadowed outer declaration
+        for (size_t k = 0; k < e.select.get_size(); k++) {
+            std::function<bool(const expression_t&)> ok = [&](const expression_t& x) { if (x.empty()) return true; if (x.get_kind() == IDENTIFIER && x.get_symbol().get_name() == e.select[k].get_name() && x.get_symbol() != e.select[k]) return false; for (size_t c = 0; c < x.get_size(); c++) if (!ok(x.get(c))) return false; return true; };
+            bad += !eq(en + "binding of " + e.select[k].get_name(), ok(e.guard) && ok(e.assign) && ok(e.sync) ? "binder" : "outer", "binder");
+        }
         bad += !eq(en + "guard", xs(e.guard), me.guard.empty() ? "1" : me.guard);      // an absent guard is the constant true
         bad += !eq(en + "sync", xs(e.sync), me.sync.empty() ? "-" : me.sync);
         bad += !eq(en + "assign", xs(e.assign), me.assign.empty() ? "1" : me.assign);
@@ -98,7 +112,7 @@ extern "C" void harness_endpoints()  /* vf: bounds=1_template,3_locations,1_bran
     vf_reach("end");
 }
 
-extern "C" void harness_locations()  /* vf: bounds=2_templates_x_3_locations:named/anonymous,urgent/committed,invariant_and/or_rate_label,initial_location_index;second_template_fixed */
+extern "C" void harness_locations()  /* vf: bounds=2_templates_x_3_locations:named/anonymous,white_space_around_names(6_paddings),urgent/committed,invariant_and/or_rate_label,initial_location_index;second_template_fixed */
 {
     MModel m; m.gdecl = GDECL; m.system = "system T, U;";
     MTemplate t = base_template("T", 0), u = base_template("U", 1);
@@ -107,7 +121,11 @@ extern "C" void harness_locations()  /* vf: bounds=2_templates_x_3_locations:nam
     int fl = vf_pick("!flag2", 3), fl1 = vf_pick("!flag1", 3);
     t.locs[2].urgent = fl == 1; t.locs[2].committed = fl == 2;
     t.locs[1].urgent = fl1 == 1; t.locs[1].committed = fl1 == 2;
+    static const char* PADS[][2] = {{"", ""}, {" ", ""}, {"", " "}, {"  ", "  "}, {"\n      ", "\n    "}, {"\t", "\r\n"}};
+    int pad = vf_pick("!name_padding", 6);
+    xml_name_pad_left = PADS[pad][0]; xml_name_pad_right = PADS[pad][1];
     int lab = vf_pick("!labels0", 4), lab1 = vf_pick("!labels1", 2);
+    vf_assume(pad == 0 || (fl == 0 && fl1 == 0 && lab == 0));   // padding varies with the naming and the initial location only
     if (lab & 1) t.locs[0].inv = "x <= 5";
     if (lab & 2) t.locs[0].rate = "3";
     if (lab1) t.locs[1].inv = "y <= 7";
@@ -119,13 +137,15 @@ extern "C" void harness_locations()  /* vf: bounds=2_templates_x_3_locations:nam
     vf_reach("end");
 }
 
-extern "C" void harness_labels()  /* vf: bounds=2_templates:presence_of_select/guard/synchronisation/assignment/probability_on_edge_0,guard/assignment_on_edge_1,guard/sync_on_the_edge_of_template_2;each_label_with_a_distinct_text */
+extern "C" void harness_labels()  /* vf: bounds=2_templates:presence_of_select(fresh,shadowing_a_global,two_binders)/guard/synchronisation/assignment/probability_on_edge_0,guard/assignment_on_edge_1,guard/sync_on_the_edge_of_template_2;each_label_with_a_distinct_text */
 {
     MModel m; m.gdecl = GDECL; m.system = "system T, U;";
     MTemplate t = base_template("T", 0), u = base_template("U", 1);
     int l0 = vf_pick("!labels_edge0", 32), l1 = vf_pick("!labels_edge1", 4), l2 = vf_pick("!labels_other_template", 4);
     MEdge e0; e0.src = 0; e0.dst = 1;
-    if (l0 & 1) e0.select = "k : int[0,2]";
+    int sf = vf_pick("!select_form", 3);
+    static const char* SEL[] = {"k : int[0,2]", "g : int[0,2]", "k : int[0,2], h : int[0,2]"};   // fresh binder, binder shadowing a global, two binders (one shadowing)
+    if (l0 & 1) e0.select = SEL[sf];
     if (l0 & 2) e0.guard = "g < 10 && x >= 2";
     if (l0 & 4) e0.sync = "c!";
     if (l0 & 8) e0.assign = "h = 20, x = 0";
